@@ -192,6 +192,8 @@ type Query struct {
 	Offset                int
 	Limit                 int
 	ForceFresh            bool
+	// HasLimit is true if the query has an explicit LIMIT (which may be 0)
+	HasLimit bool
 }
 
 // TableFor returns the table in the FROM clause of this query
@@ -645,6 +647,7 @@ func (q *Query) applyLimit(stmt *sqlparser.Select) error {
 				return fmt.Errorf("Unable to parse limit %v: %v", _limit, err)
 			}
 			q.Limit = limit
+			q.HasLimit = true
 		}
 
 		if stmt.Limit.Offset != nil {
